@@ -167,7 +167,7 @@ func runSelfTest(verifDir, repo string, p *Property) (map[string]interface{}, *R
 		errs    string
 	}
 	results := make([]res, len(fxs))
-	sem := make(chan struct{}, 6)
+	sem := make(chan struct{}, 4)
 	var wg sync.WaitGroup
 	for i, fx := range fxs {
 		wg.Add(1)
